@@ -171,3 +171,58 @@ PROPS['C19'] = dict(
     level_note='Trusted: reference DFT; histories limited to 8 calls and domains <= 2^7.',
     assumptions=['every call size within the object maximum domain'],
 )
+
+HARNESSES['h_poseidon'] = dict(src='h_poseidon.cpp')
+
+PROPS['C06'] = dict(
+    title='Poseidon permutation: scalar, AVX2, AVX512 agree with the spec on all states',
+    jobs=[J('h_poseidon', 'fast5', 3_000_000, 400_000_000, only='c06.perm,c06.backsolved', wq=12),
+          J('h_poseidon', 'fast2', 1_000_000, 100_000_000, only='c06.perm,c06.backsolved', wq=4, class_prefix='avx2-build:'),
+          J('h_poseidon', 'fast5', 1, 1, only='c06.kat', wq=1, wt=1, args=['--enumerate'], tag='kat'),
+          J('h_poseidon', 'fast2', 1, 1, only='c06.kat', wq=1, wt=1, args=['--enumerate'], tag='kat', class_prefix='avx2-build:')],
+    rule='rapidcheck-generated 12-element states (AVX512: pairs of states in the interleaved layout) from the boundary element classes, all-equal and one-hot states, and BACK-SOLVED states: '
+         'the state entering one of the first four linear layers (3x M, 1x P) is chosen per coordinate (incl. coordinates whose product with a matrix entry has a residue < 2^32) and the preceding rounds are inverted with the reference '
+         '(7th root, inverse MDS by Gaussian elimination) to obtain the permutation input. Oracle: reference permutation written from the round structure on the tables C, M, P, S; compared element-wise (canonical) with '
+         'hash_full_result_seq, hash_full_result, hash_full_result_avx512 (both interleaved states), in-place calls, and hash_seq/hash/hash_avx512 = first four elements; the suite\'s known-answer vector pins the tables; '
+         'table facts relied on by the vector code (C,S,P_ canonical, C<=0xFFFFFFFF00000000, M_<2^8, M_/P_ = transposed layouts of M/P) enumerated. Non-trivial: state with non-canonical/edge element or back-solved. distinct = distinct states.',
+    expected_classes=['perm:non-canonical-element', 'backsolved:layer1(M)', 'backsolved:layer2(M)', 'backsolved:layer3(M)', 'backsolved:layer4(P)', 'kat'],
+    technique='rapidcheck differential testing of three backends against an independent reference permutation; back-solved mid-permutation states; known-answer vectors',
+    level_text='Generated-input differential search: every state goes through scalar, AVX2 and AVX512 backends and an independent reference. Back-solving places chosen values in the middle of the permutation where input-side sampling cannot. Sampling, not proof.',
+    level_note='Trusted: reference permutation (pinned by the suite\'s known-answer vector), the library tables C/M/P/S as the specification\'s constants. AVX512 part needs AVX512F hardware.',
+    assumptions=['round constants and matrices of the library are the specification', 'CPU supports AVX512F for the AVX512 backend'],
+)
+PROPS['C07'] = dict(
+    title='linear_hash is the rate-8 capacity-4 sponge for every input length',
+    jobs=[J('h_poseidon', 'fast5', 1, 1, only='c07.lengths', wq=8, wt=16, args=['--enumerate', '--level', '0'], tiers=['quick'], tag='enum'),
+          J('h_poseidon', 'fast5', 1, 1, only='c07.lengths', wq=8, wt=16, args=['--enumerate', '--level', '1'], tiers=['thorough'], tag='enum'),
+          J('h_poseidon', 'fast5', 40_000, 4_000_000, only='c07.random', wq=8, wt=16, tag='rnd'),
+          J('h_poseidon', 'fast2', 10_000, 1_000_000, only='c07.random', wq=4, wt=8, tag='rnd', class_prefix='avx2-build:')],
+    rule='EVERY length 0..200 enumerated (4 contents each, thorough 16) plus rapidcheck-random lengths up to 5000 with explicit boundary-class prefixes; contents mix canonical / non-canonical / edge representations. '
+         'Oracle: reference sponge (zero capacity, 8 elements per block, zero padding, first four outputs fed back) on the reference permutation; pass-through and zero padding for length <= 4. '
+         'linear_hash_seq, linear_hash (AVX2) and linear_hash_avx512 (two consecutive inputs) must all return it. Inputs are exact-size heap blocks followed by junk that is varied (metamorphic: digest must not change); '
+         'an 8-element canary follows the 4 (8) output elements; the input must stay unmodified. Non-trivial: length <= 8 or not a multiple of 8.',
+    expected_classes=['lh:pass-through(<=4)', 'lh:single-block(5..8)', 'lh:partial-last-block', 'lh:multiple-of-8', 'lh:empty'],
+    technique='exhaustive enumeration of lengths 0..200 + rapidcheck-random lengths, reference-sponge oracle, metamorphic junk-after-input relation',
+    level_text='All lengths up to 200 (every residue mod 8 many times, both sides of the pass-through threshold) are enumerated and longer ones sampled; three backends against an independent sponge.',
+    level_note='Trusted: reference permutation/sponge. Read-exactly-the-declared-length is decided here by the junk metamorphic relation and, under ASan, by C18.',
+    assumptions=['AVX512 variant receives two inputs of equal length stored consecutively'],
+)
+PROPS['C08'] = dict(
+    title='Merkle tree buffer and root are the binary Poseidon tree over row digests',
+    jobs=[J('h_poseidon', 'fast5', 1, 1, only='c08.enum', wq=16, wt=16, args=['--enumerate', '--level', '0'], tiers=['quick'], tag='enum'),
+          J('h_poseidon', 'fast5', 1, 1, only='c08.enum', wq=16, wt=16, args=['--enumerate', '--level', '1'], tiers=['thorough'], tag='enum'),
+          J('h_poseidon', 'fast2', 1, 1, only='c08.enum', wq=16, wt=16, args=['--enumerate', '--level', '0'], tag='enum', class_prefix='avx2-build:'),
+          J('h_poseidon', 'fast5', 6000, 400_000, only='c08.random', wq=16, wt=16, tag='rnd'),
+          J('h_poseidon', 'fast2', 2000, 100_000, only='c08.random', wq=8, wt=16, tag='rnd', class_prefix='avx2-build:')],
+    rule='Enumerated: 8 builders (seq/avx/avx512, batch seq/avx/avx512, both default wrappers) x rows 2^0..2^4 (thorough 2^7) x cols {0,1,3,4,5,8,9,12,13,17,33} (thorough 22 values to 128) x dim {1,2,3} x '
+         'batch sizes {1,3,4,cols-1,cols+1,2^20} (thorough 11 values) x nThreads rotated over {0,1,2,3,5,16}; plus rapidcheck-random shapes (rows to 2^8/2^10, cols to 140, batch to 2^40, threads to 33); each case forked. '
+         'Oracle: every element of the tree buffer vs the reference tree (row digests by reference sponge; batched leaf = sponge of concatenated per-batch digests; parent = first 4 outputs of perm(left||right||0000)); '
+         'buffer length = getTreeNumElements(rows) = 4(2 rows - 1); root() = last four; 16-element canary after the tree; input unmodified. In the -D__AVX512__ build the wrappers select the AVX512 builders. '
+         'Non-trivial: rows != 64, cols == 0, dim > 1, batch not dividing cols, explicit thread count.',
+    expected_classes=['mt:one-row', 'mt:zero-cols', 'mt:dim>1', 'mt:batch-not-dividing-cols', 'mt:several-batches', 'mt:batch>=cols', 'mt:explicit-threads',
+                      'merkletree_avx512', 'merkletree_batch_avx512', 'merkletree (wrapper)', 'merkletree_batch (wrapper)', 'merkletree_seq', 'merkletree_batch_seq', 'merkletree_avx', 'merkletree_batch_avx'],
+    technique='exhaustive small-scope enumeration of tree shapes and builders + rapidcheck-random shapes, reference-tree oracle, fork-per-case, canary after the tree',
+    level_text='Tree shapes (rows, cols, dim, batch size, threads) are enumerated over a small scope for all eight builders and sampled beyond; each tree is compared element by element with an independent reference tree.',
+    level_note='Trusted: reference permutation/sponge/tree. Rows limited to 2^10.',
+    assumptions=['num_rows is a power of two >= 1', 'batch_size >= 1', 'nThreads >= 0'],
+)
